@@ -455,6 +455,7 @@ def run(ctx):
                   'AuthConfiguration.id is the typed `id` value (a fixed default when absent)',
                   key=('B2', 'AuthConfiguration', 'id'), site=site)
     check_payload_id(ctx)
+    check_ip_loaders(ctx)
     check_crypto_algs(ctx)
     check_tables(ctx)
 
@@ -595,6 +596,30 @@ def check_payload_id(ctx):
         ok2 = tq.text(a_).endswith('ID_RFC822_ADDR') and tq.text(b_).endswith('ID_FQDN')
     ctx.check(ok2, 'B2', 'any other id (ip_address raised ValueError) is typed ID_RFC822_ADDR when it contains "@", else ID_FQDN, and '
               'carries the encoded text', key=('B2', '_get_payload_id', 'text'), site=ctx.site(fi, fi.node))
+
+
+def check_ip_loaders(ctx):
+    """the two address conversions: a subnet is what ip_network() makes of the configured text in its strict (default) reading - host
+    bits set are an error, not silently dropped - and an address is ip_address() of the first getaddrinfo() result; failures of either
+    become ConfigurationError"""
+    fi = ctx.func(CLS + '._load_ip_network')
+    S = ctx.sval(fi)
+    p = fi.call_params()[0]
+    rets = [strip_ids(t) for pc, t, _ in S.returns]
+    ctx.check(rets == [strip_ids(S.expr('ip_network(%s)' % p))], 'B2', '_load_ip_network returns ip_network(<text>) with no further options '
+              '(strict: a subnet with host bits set is refused)', key=('B2', '_load_ip_network', 'value'), site=ctx.site(fi, fi.node),
+              detail={'returns': [tq.text(t, 200) for t in rets]})
+    exc = [tq.text(t, 200) for pc, t, _ in S.raises]
+    ctx.check(bool(exc) and all('ConfigurationError' in e for e in exc), 'B2', 'a text ip_network() refuses becomes ConfigurationError',
+              key=('B2', '_load_ip_network', 'error'), site=ctx.site(fi, fi.node), detail={'raises': exc})
+    fa = ctx.func(CLS + '._load_ip_address')
+    A = ctx.sval(fa)
+    pa = fa.call_params()[0]
+    rets = [strip_ids(t) for pc, t, _ in A.returns]
+    want = [strip_ids(A.expr('ip_address(ip_address(socket.getaddrinfo(%s, None)[0][4][0]))' % pa)),
+            strip_ids(A.expr('ip_address(socket.getaddrinfo(%s, None)[0][4][0])' % pa))]
+    ctx.check(len(rets) == 1 and rets[0] in want, 'B2', '_load_ip_address returns the first address getaddrinfo() resolves the text to',
+              key=('B2', '_load_ip_address', 'value'), site=ctx.site(fa, fa.node), detail={'returns': [tq.text(t, 200) for t in rets]})
 
 
 def check_crypto_algs(ctx):
